@@ -2,6 +2,7 @@
 package main
 
 import (
+	"os"
 	"fmt"
 	"go/token"
 	"go/types"
@@ -44,6 +45,7 @@ type FnResult struct {
 	Inputs      []inputVar
 	Pos         token.Position
 	Quantified  bool
+	DeadEdges   []string
 	Skipped     int // obligations tagged for other properties only (not solved in this run)
 }
 
@@ -638,6 +640,49 @@ func (w *World) verifyFn(fn *ssa.Function, sv *Solver, tier string) *FnResult {
 			autos = append(autos, o)
 		default:
 			real = append(real, o)
+		}
+	}
+	// dead-edge diagnostic: a CFG edge whose path condition is unsatisfiable together with ALL assumptions collected for
+	// the function is never explored - every obligation behind it holds vacuously. Some are legitimately dead
+	// (defensive checks, errors the assumed dependency contracts exclude); each is listed so that an over-strong
+	// assumption (the classic vacuity hole) is visible. Checked on request (sweep -dead, thorough tier).
+	if w.deadEdges {
+		if sv.DumpDir != "" {
+			var sb strings.Builder
+			sb.WriteString(prelude)
+			for _, d := range c.decls {
+				sb.WriteString(d + "\n")
+			}
+			for _, a := range c.asms {
+				sb.WriteString("(assert " + a + ")\n")
+			}
+			sb.WriteString("(check-sat)\n")
+			os.MkdirAll(sv.DumpDir, 0o755)
+			os.WriteFile(sv.DumpDir+"/HYP_"+sanitizeSym(fnName(fn))+".smt2", []byte(sb.String()), 0o644)
+		}
+		seen := map[string]bool{}
+		for _, e := range c.edgeConds {
+			if e.cond == "true" || seen[e.cond] {
+				continue
+			}
+			seen[e.cond] = true
+			if st := sv.checkSat(c, len(c.decls), len(c.asms), e.cond, 5); st == "unsat" {
+				at := e.at
+				if !at.IsValid() {
+					for _, bi := range []int{e.to, e.from} {
+						for _, ins := range fn.Blocks[bi].Instrs {
+							if ins.Pos().IsValid() {
+								at = c.fset.Position(ins.Pos())
+								break
+							}
+						}
+						if at.IsValid() {
+							break
+						}
+					}
+				}
+				res.DeadEdges = append(res.DeadEdges, fmt.Sprintf("%s %s:%d (block %d %s -> %d %s)", fnName(fn), shortFile(at.Filename), at.Line, e.from, fn.Blocks[e.from].Comment, e.to, fn.Blocks[e.to].Comment))
+			}
 		}
 	}
 	timeout := sv.Timeout
